@@ -81,12 +81,48 @@ def register(P):
 
     P["ENGINES"]["patch"] = {"trivial_tags": {"bad"}, "shrink": shrink_patch}
 
+    def feat_bigint(engine, case):
+        """the encoded set of a `patch` case holds an integer that float64 cannot represent exactly (|n| > 2^53)"""
+        if engine != "patch":
+            return False
+        f = case.split("|")
+        try:
+            tree = json.loads(bytes.fromhex(f[0]).decode())
+        except Exception:
+            return False
+
+        def walk(x):
+            if isinstance(x, bool):
+                return False
+            if isinstance(x, int):
+                return abs(x) > 2 ** 53
+            if isinstance(x, dict):
+                return any(walk(v) for v in x.values())
+            if isinstance(x, list):
+                return any(walk(v) for v in x)
+            return False
+        return walk(tree)
+
+    P["FEATURES"]["a template integer above 2^53"] = feat_bigint
+
     ASSUME_INTS = ("every integer of the encoded set is below 2^53 in absolute value (getPatch goes through map[string]interface{}, i.e. float64; the generator "
                    "keeps integers inside the ranges pod validation and Linux accept; the model's numbers are exact)")
 
+    # worlds as the real Upgrade leaves them (marker revisions, orphaned or still foreign-owned pods and revisions, copied status):
+    # same case format, runner and model as the sync engine, its own generator
+    P["ENGINES"]["syncmig"] = dict(P["ENGINES"]["sync"])
+
+    def proj_mig(case, o):
+        return ([e for e in o.get("log", "").split(",") if ":rev:" in e or ":pod:" in e], o.get("revs"), o.get("out"))
+
     P["PROPS"]["C18"] = {
         "module": "Asts.Props.C18",
-        "runs": [{"engine": "patch", "quick": 3000, "thorough": 40000, "enum_thorough": ["edits"], "proj": proj_patch_c18, "extra_seeds": 1}],
+        "runs": [{"engine": "patch", "quick": 3000, "thorough": 40000, "enum_thorough": ["edits"], "proj": proj_patch_c18, "extra_seeds": 1},
+                 {"engine": "syncmig", "quick": 3000, "thorough": 40000, "proj": proj_mig, "extra_seeds": 1,
+                  "clauses": ["C18.", "C08.store", "C10.", "C11.", "C13.", "C03."]},
+                 # the general sync worlds add what the migration generator does not vary: a collision count that moved after
+                 # the matching revision was recorded, numeric / absent hash labels, engineered name collisions
+                 {"engine": "sync", "quick": 4000, "thorough": 40000, "proj": proj_mig, "extra_seeds": 1, "clauses": ["C18."]}],
         "rule": PATCH_RULE,
         "assumptions": [
             "the premise of the reduction theorem — the Advanced codec and the built-in codec encode a set to trees with equal spec.template subtree (one Go "
